@@ -1,3 +1,168 @@
+/-
+  C10 model driver.  ops (see harness/c10):
+    new <mtu> <frag> <reasm> <ifi> <cm> <thr> <seq>
+    tx <id> <pkthex> <tokhex|-> <itok> <mark|-> <inface|-> <cong>   => n=<k> <framehex>*
+    rx <id> <i>                                                    => ps=<n> [d=<pkthex>/<tokhex|->/<mark|->]*
+    end                                                            => ps=<n>
+  DIFF: the Lean model of sendPacket / handleIncomingFrame against the real link services.
+  SPEC: the specification predicates evaluated on the frames and deliveries of the REAL code.
+-/
 import NdnVerif.Driver.Common
--- stub: replaced by the C10 model driver
-def main : IO Unit := IO.println "DONE lines=0 histories=0 diffs=0 specs=0 skipped=0"
+import NdnVerif.Base.Name
+import NdnVerif.C10.Model
+import NdnVerif.C10.Spec
+open Ndn Ndn.Driver Ndn.C10
+
+/-- `validL3` of the model: an outer TLV of type Interest/Data spanning the whole buffer -/
+def outerOk (w : Bytes) : Bool :=
+  match decTL w with
+  | some (t, r1) => match decTL r1 with
+    | some (l, r2) => (t == 5 || t == 6) && r2.length == l
+    | none => false
+  | none => false
+
+structure MsgInfo where
+  id : String
+  sent : Sent                 -- spec view of the message (mark = the mark the frames must carry)
+  frames : List Bytes         -- frames emitted by the IMPLEMENTATION
+  judged : Bool               -- the sender side was well-formed, so the receiver can be judged
+  handed : List Nat := []
+
+structure DSt where
+  active : Bool := false
+  cfg : TxCfg := { mtu := 0 }
+  reasm : Bool := true
+  tx : TxSt := {}
+  store : Store := []
+  msgs : List MsgInfo := []
+  judgeRx : Bool := true
+
+def optNatText (s : String) : Option (Option Nat) :=
+  if s == "-" then some none else s.toNat?.map some
+
+def natText : Option Nat → String
+  | none => "-" | some n => toString n
+
+def deliveryText (w tok : Bytes) (mark : Option Nat) : String :=
+  s!"d={hexOfBytes w}/{hexOrDash tok}/{natText mark}"
+
+def parseDelivery (s : String) : Option Delivery :=
+  if !s.startsWith "d=" then none else
+  match ((s.drop 2).toString).splitOn "/" with
+  | [w, t, m] =>
+    match bytesOfHex w, (if t == "-" then some [] else bytesOfHex t), optNatText m with
+    | some w, some t, some m => some ⟨w, t, m⟩
+    | _, _, _ => none
+  | _ => none
+
+def bool01 (s : String) : Bool := s == "1"
+
+def stepC10 (d : DSt) (op : String) (got : String) : StepResult DSt :=
+  let crash : List SpecFail := if isCrash got then [⟨"no-crash", "crash", s!"{op.take 60}: {got}"⟩] else []
+  match op.splitOn " " with
+  | ["new", mtu, frag, reasm, ifi, cm, thr, seq] =>
+    match mtu.toNat?, thr.toNat?, seq.toNat? with
+    | some mtu, some thr, some seq =>
+      let cfg : TxCfg := { mtu := mtu, fragEnabled := bool01 frag, ifiEnabled := bool01 ifi,
+                           congMarking := bool01 cm, threshold := thr }
+      { st := { active := true, cfg := cfg, reasm := bool01 reasm, tx := { nextSeq := seq } },
+        expected := some "ok",
+        cov := [if bool01 frag then "cfg-frag" else "cfg-nofrag"] ++ (if bool01 ifi then ["cfg-ifi"] else []) ++
+               (if bool01 cm then ["cfg-congestion-marking"] else []) ++
+               (if seq + 300 ≥ two64 then ["seq-near-2^64"] else if seq + 300 ≥ 4294967296 ∧ seq < 4294967296 then ["seq-near-2^32"] else []) }
+    | _, _, _ => { st := {}, expected := some "bad-op" }
+  | ["tx", id, pkt, tok, _itok, mark, inface, cong] =>
+    if !d.active then { st := d, expected := some "skip" } else
+    match bytesOfHex pkt, (if tok == "-" then some [] else bytesOfHex tok), optNatText mark, optNatText inface with
+    | some wire, some tok, some mark, some inface =>
+      -- ---------- model
+      let p : OutPkt := { wire := wire, token := tok, mark := mark, inFace := inface, congested := bool01 cong }
+      let r := sendPacketF d.cfg d.tx p
+      let mframes := r.2.1.map encFrame
+      let expected := s!"n={mframes.length}" ++ String.join (mframes.map fun f => " " ++ hexOfBytes f)
+      let cov := [match r.2.2 with
+                  | .single => "tx-single" | .dropNoFrag => "tx-drop-nofrag"
+                  | .dropTinyMtu => "tx-drop-tiny-mtu" | .fragmented => "tx-fragmented"] ++
+                 (if r.1.nextSeq < d.tx.nextSeq then ["tx-seq-wrap"] else []) ++
+                 (if (congestionStep d.cfg d.tx p).1 ≠ mark then ["tx-own-congestion-mark"] else []) ++
+                 (if tok ≠ [] then ["tx-token"] else []) ++ (if mark.isSome then ["tx-mark"] else []) ++
+                 (if d.cfg.ifiEnabled ∧ inface.isSome then ["tx-inface"] else [])
+      -- ---------- specification on the implementation's frames
+      let toks := got.splitOn " "
+      let iframes : Option (List Bytes) :=
+        match toks with
+        | n :: hs => if n.startsWith "n=" then hs.mapM bytesOfHex else none
+        | [] => none
+      match iframes with
+      | none => { st := { d with tx := r.1, judgeRx := false }, expected := some expected, spec := crash, cov := cov }
+      | some iframes =>
+        let m0 : Sent := { wire := wire, token := tok, mark := mark,
+                           inFace := if d.cfg.ifiEnabled then inface else none }
+        let inScope := m0.admissible && d.cfg.mtu ≥ specMinMtu
+        -- the mark the frames have to carry: the packet's, unless the link signals congestion itself
+        let ownMarkAllowed := d.cfg.congMarking && bool01 cong
+        let firstMark : Option Nat := match decodeAll iframes with
+          | some (f :: _) => f.mark | _ => mark
+        let m : Sent := if ownMarkAllowed && (mark.isNone || firstMark.isSome) then { m0 with mark := firstMark } else m0
+        let fails : List SpecFail :=
+          if !inScope then [] else
+          (if framesFit d.cfg.mtu iframes then [] else
+            [⟨"frame-le-mtu", "frame-gt-mtu", s!"mtu={d.cfg.mtu} packet={wire.length}B frame sizes={iframes.map (·.length)}"⟩]) ++
+          (if singleOk m d.cfg.mtu iframes then [] else
+            [⟨"fits-single-frame", "not-single", s!"mtu={d.cfg.mtu} packet={wire.length}B fits one frame of {(encFrame m.whole).length}B but {iframes.length} frames were sent"⟩]) ++
+          (if noFragOk m d.cfg.mtu d.cfg.fragEnabled iframes then [] else
+            [⟨"nofrag-oversize-dropped", "sent-oversize", s!"fragmentation disabled, mtu={d.cfg.mtu}, packet={wire.length}B, yet {iframes.length} frame(s) sent"⟩]) ++
+          (if iframes.isEmpty then
+             (if d.cfg.fragEnabled || m.fitsWhole d.cfg.mtu then
+               [⟨"delivers-original", "sender-dropped", s!"mtu={d.cfg.mtu} packet={wire.length}B: nothing was sent"⟩] else [])
+           else match carriesWhy m iframes with
+             | none => []
+             | some why => [⟨"delivers-original", "frames-" ++ why, s!"mtu={d.cfg.mtu} packet={wire.length}B {iframes.length} frame(s): the frames do not carry the packet ({why})"⟩])
+        let judged := inScope && fails.isEmpty && d.reasm
+        let info : MsgInfo := { id := id, sent := m, frames := iframes, judged := judged }
+        { st := { d with tx := r.1, msgs := info :: d.msgs.filter (·.id ≠ id) }, expected := some expected,
+          spec := crash ++ fails, cov := cov, nontrivial := iframes.length > 1 }
+    | _, _, _, _ => { st := d, expected := some "bad-op" }
+  | ["rx", id, i] =>
+    if !d.active then { st := d, expected := some "skip" } else
+    match d.msgs.find? (·.id = id), i.toNat? with
+    | some info, some i =>
+      match info.frames[i]? with
+      | none => { st := d, expected := some "skip" }
+      | some frame =>
+        -- ---------- model
+        let r := handleFrame d.reasm outerOk d.store frame
+        let (expected, cov) : Option String × List String := match r.2 with
+          | .drop => (some s!"ps={r.1.length}", [if r.1.length > d.store.length then "rx-store-new" else if r.1.length > 0 ∧ info.frames.length > 1 then "rx-store-more" else "rx-drop"])
+          | .deliver x => (some s!"ps={r.1.length} {deliveryText x.wire x.token x.mark}",
+                           [if info.frames.length > 1 then "rx-deliver-reassembled" else "rx-deliver-single"])
+          | .panic _ => (none, ["rx-panic"])
+          | .alloc _ => (none, ["rx-alloc"])
+        -- ---------- specification on the implementation's deliveries
+        let dup := info.handed.contains i
+        let judge := d.judgeRx && info.judged && !dup
+        let toks := (got.splitOn " ").filter (· ≠ "")
+        let idel : List (Option Delivery) := (toks.filter (·.startsWith "d=")).map parseDelivery
+        let want := expectedAt info.sent info.frames.length info.handed i
+        let fails : List SpecFail :=
+          if !judge || !got.startsWith "ps=" then [] else
+          if idel.any Option.isNone then [⟨"delivered-exactly-once", "unparsable", got.take 80 |>.toString⟩] else
+          let idel := idel.filterMap (fun x => x)
+          if idel = want then [] else
+          match want, idel with
+          | [w], [] => [⟨"delivered-exactly-once", "missing", s!"all {info.frames.length} frame(s) of message {id} ({w.wire.length}B) have arrived, nothing was delivered"⟩]
+          | [], x :: _ => [⟨"delivered-exactly-once", "unexpected", s!"message {id}: a {x.wire.length}B packet was delivered before all frames arrived / a second time"⟩]
+          | [w], [x] => [⟨"delivered-exactly-once",
+                          (if x.wire ≠ w.wire then "wrong-bytes" else if x.token ≠ w.token then "wrong-token" else "wrong-mark"),
+                          s!"message {id}: delivered {x.wire.length}B token={hexOrDash x.token} mark={natText x.mark}, sent {w.wire.length}B token={hexOrDash w.token} mark={natText w.mark}"⟩]
+          | _, _ => [⟨"delivered-exactly-once", "count", s!"message {id}: {idel.length} deliveries at one arrival"⟩]
+        let info' := { info with handed := i :: info.handed }
+        { st := { d with store := r.1, msgs := info' :: d.msgs.filter (·.id ≠ id), judgeRx := d.judgeRx && !dup },
+          expected := expected, spec := crash ++ fails, cov := cov ++ (if dup then ["rx-duplicate"] else []) }
+    | _, _ => { st := d, expected := some "skip" }
+  | ["end"] =>
+    if !d.active then { st := d, expected := some "skip" } else
+    { st := d, expected := some s!"ps={d.store.length}", spec := crash, cov := [if d.store.isEmpty then "end-store-empty" else "end-store-nonempty"] }
+  | _ => { st := d, expected := some "bad-op" }
+
+def main : IO Unit := Ndn.Driver.run ({} : DSt) stepC10
